@@ -25,7 +25,7 @@ def lattice(rng, n, shape, base=(0, 0, 0), key0=0.0):
         c = (base[0] + rng.randint(-12, 12), base[1] + rng.randint(-12, 12), base[2] + rng.randint(-12, 12))
         if c not in pts:
             pts.add(c); xyz.append([float(v) for v in c])
-    return {"n": n, "pids": pids, "types": [1] + [rng.choice([2, 3, 4, 5]) for _ in range(n - 1)], "xyz": xyz,
+    return {"n": n, "pids": pids, "types": [rng.choice([1, 1, 2, 3, 4])] + [rng.choice([2, 3, 4, 5]) for _ in range(n - 1)], "xyz": xyz,
             "r": [key0 + (i + 1) / 8 for i in range(n)]}
 
 
@@ -43,7 +43,7 @@ class Redirect(Suite):
         import itertools
         for n in range(1, 6 if big else 5):           # all (tree, node) pairs of small sorted trees
             for ps in itertools.product(*[range(i) for i in range(1, n)]):
-                t = {"n": n, "pids": [-1] + list(ps), "types": [1] + [2 + (i % 3) for i in range(1, n)],
+                t = {"n": n, "pids": [-1] + list(ps), "types": [[1, 3, 4][len(ps) % 3]] + [2 + (i % 3) for i in range(1, n)],
                      "xyz": [[float(i), float(i * i % 5), 0.0] for i in range(n)], "r": [(i + 1) / 8 for i in range(n)]}
                 for v in range(n):
                     out.append({"class": f"all-n{n}", "tree": t, "root": v, "sort": (v + n) % 2 == 0})
@@ -128,8 +128,16 @@ class CatSuite(Suite):
                     if not translate and rng.random() < 0.4:      # coincident junction without translation
                         d = [t1["xyz"][a][i] - t2["xyz"][b][i] for i in range(3)]
                         t2 = dict(t2); t2["xyz"] = [[p[i] + d[i] for i in range(3)] for p in t2["xyz"]]
-                    out.append({"class": f"{'translate' if translate else 'fixed'}/{'root2' if t2['pids'][b] == -1 else 'inner2'}",
-                                "t1": t1, "t2": t2, "n1": a, "n2": b, "translate": translate})
+                    cls = f"{'translate' if translate else 'fixed'}/{'root2' if t2['pids'][b] == -1 else 'inner2'}"
+                    if not translate and rng.random() < 0.35:
+                        # far from the origin, junction nodes a hair apart (1/128): close is not coincident
+                        off = [float(rng.randint(1200, 2000)), float(rng.randint(1200, 2000)), float(rng.randint(-2000, -1200))]
+                        t1 = dict(t1); t1["xyz"] = [[p[i] + off[i] for i in range(3)] for p in t1["xyz"]]
+                        gap = [rng.choice([1 / 128, -1 / 128, 1 / 64]), 0.0, 0.0]
+                        d = [t1["xyz"][a][i] + gap[i] - t2["xyz"][b][i] for i in range(3)]
+                        t2 = dict(t2); t2["xyz"] = [[p[i] + d[i] for i in range(3)] for p in t2["xyz"]]
+                        cls = "fixed-near-far/" + cls.split("/")[1]
+                    out.append({"class": cls, "t1": t1, "t2": t2, "n1": a, "n2": b, "translate": translate})
         return out
 
     def run(self, case):
@@ -155,11 +163,11 @@ class CatSuite(Suite):
         t1, t2 = case["t1"], case["t2"]
         ns = t1["n"]
         pre = [o if s == 1 else o + ns for s, o in self._src(case, res)]
-        col = lambda t, i: gen.ints([int(p[i]) for p in t["xyz"]])
+        col = lambda t, i: gen.ints([int(round(p[i] * 128)) for p in t["xyz"]])
         line = (f"cat p1={gen.ints(t1['pids'])} t1={gen.ints(t1['types'])} x1={col(t1, 0)} y1={col(t1, 1)} z1={col(t1, 2)} "
                 f"p2={gen.ints(t2['pids'])} t2={gen.ints(t2['types'])} x2={col(t2, 0)} y2={col(t2, 1)} z2={col(t2, 2)} "
                 f"n1={case['n1']} n2={case['n2']} tr={int(case['translate'])}")
-        xs = lambda i: gen.ints([int(p[i]) for p in res["xyz"]])
+        xs = lambda i: gen.ints([int(round(p[i] * 128)) for p in res["xyz"]])
         return [(line, f"{gen.ints(res['pid'])} / {gen.ints(pre)} / {xs(0)} / {xs(1)} / {xs(2)} / {gen.ints(res['type'])}")]
 
     def oracle(self, case, res):
